@@ -35,7 +35,7 @@ LEVEL_TEXT = ("Proved, for every registry and integer range, relative to the spe
               "C03_complete_abnf_builtin - the whole language with the built-in functions: bf_grammar is the RFC grammar in which every function call is a well-typed use of length / count / value / match / search "
               "(RFC 9535 2.4.3 and the signatures of 2.4.4-2.4.8 written into the rules; C03_builtin_is_rfc: its strings are strings of the RFC grammar); every string it derives compiles wherever the five functions are "
               "registered with those signatures and the range contains its integers (Proofs/AbnfSpellG.v: the abstract machine run from arbitrary states - filters inside function arguments inside filters - with "
-              "the stacks restored by every construct). What stays a reading: that bf_grammar is exactly 'ABNF + well-typed with the built-ins' (for other registries the theorem is C03_complete_spelled); "
+              "the stacks restored by every construct). C03_C04_builtin_exact: conversely, with the registry setup_function_extensions builds compile() accepts EXACTLY the strings of bf_grammar whose integers are in range (Proofs/TextSoundB.v) - what is left to read against the RFC is that one grammar; for other registries the theorem is C03_complete_spelled; "
               "every generated valid query, rendered in every lexical form, must compile to the generating structure.")
 LEVEL_NOTE = "The headline is proved for the typed built-in grammar bf_grammar (a transcription of the typing rules into the ABNF); for arbitrary registries relative to the typed token grammar. Trusted: Coq kernel, grammar transcription, the spelling relation (Proofs/LexSpell.v astep) as a reading of where the ABNF allows blanks, renderer (self-checked), extraction and driver."
 
